@@ -11,7 +11,7 @@ class C04(SessionCheck):
     N_QUICK = 150
     RULE = ('lock-step histories with one injected fault (EOF / read error / write returning 0 or -1 / write raising) at a random '
             'point of the worker loop, 0-6 outstanding requests, over 3 transports x 14 profiles, compared step by step with the model; '
-            'plus real-socket sessions whose server closes at EVERY byte offset of a scripted response stream (quick: a sample of offsets; '
+            '(incl. EOF in the middle of a message whose start tag has arrived, under both framings) plus real-socket sessions (1.0-only and 1.1 servers alternating) whose server closes at EVERY byte offset of a scripted response stream (quick: a sample of offsets; '
             'thorough: every offset) or after the k-th request, with client threads issuing requests meanwhile; elapsed time of every call measured. '
             'Non-trivial = history >= 8 commands / socket run with >= 2 calls.')
     ASSUMPTIONS = ['a request created after the worker delivered its final error but before the session is marked disconnected is not failed; '
@@ -20,8 +20,12 @@ class C04(SessionCheck):
     def e2e_cases(self, rng, tier):
         out = []
         offs = list(range(0, 700, 37)) if tier == 'quick' else list(range(0, 900))
+        from impl import fakeserver as FS
+        only10 = [c for c in FS.STD_CAPS if c != FS.B11]
         for i, off in enumerate(offs):
+            # half of the servers speak base:1.0 only (end-of-message framing), the others negotiate chunked framing
             out.append({'kind': 'e2e', 'sc': {'transport': 'tls' if (tier == 'thorough' and i % 10 == 9) else ('ssh' if i % 5 == 4 else 'unix'), 'profile': 'default',
+                                              'server_caps': only10 if i % 2 else None,
                                               'threads': 2, 'per_thread': 2, 'window': 2, 'notifs': 0, 'seg': rng.choice(['random', 'whole']),
                                               'seed': 11, 'timeout': 1.5, 'fault': {'kind': 'close-at-offset', 'offset': off}}})
         for k in range(1, 4 if tier == 'quick' else 8):
@@ -38,7 +42,7 @@ class C04(SessionCheck):
         if io.get('hung_threads'):
             return ('C04:call-outlived-timeout', 'a synchronous call never returned')
         for c in io['calls']:
-            if c['dt'] > tmo + 2.5:
+            if c['dt'] > tmo + 4:
                 return ('C04:call-outlived-timeout', 'call %s took %.2fs with timeout %.1fs' % (c['tag'], c['dt'], tmo))
             if c['out'][0] == 'reply':
                 if c['out'][2] != c['tag']:
